@@ -58,6 +58,7 @@ def case(name, lineup, nb, E, jobs):
         shared = shared_functions(ctx)
         fs = MemFS()
         with det_world(fs):
+            ctx.mul_abstract = any(k == "pso" for k, _ in lineup)  # swarm dynamics: products as uninterpreted terms (congruence suffices for equality of runs)
             ctx.parallel_reverse = True
             ca = [ctx.int(f"ctorA{i}", 0) for i in range(len(lineup))]
             cb = [ctx.int(f"ctorB{i}", 0) for i in range(len(lineup))]
@@ -74,7 +75,13 @@ def case(name, lineup, nb, E, jobs):
             ctx.sample({"case": name, "rows": len(A.losses_samp)})
 
     def replay(cex):
-        return replay_concrete(lineup, nb, E, jobs, int(cex.values.get("S") or 0) % 2**32)
+        S0 = int(cex.values.get("S") or 0) % 2**32
+        # the seed is unconstrained on every path (it only occurs inside draw(seed, k)): any seed instantiates the counterexample
+        for S in (S0, S0 + 1, S0 + 2):
+            bad, info = replay_concrete(lineup, nb, E, jobs, S)
+            if bad:
+                break
+        return bad, info
 
     return Case(name, body, replay, time_budget=400)
 
@@ -98,7 +105,7 @@ def replay_concrete(lineup, nb, E, jobs, S):
         with contextlib.redirect_stdout(io.StringIO()), warnings.catch_warnings():
             warnings.simplefilter("ignore")
             c = cal.Calibrator(loss_function=MinkowskiLoss(), real_data=np.array([[0.3], [0.6]]), model=_model, parameters_bounds=[[0.0], [1.0]],
-                               parameters_precision=[0.25], ensemble_size=E, samplers=samplers, verbose=verbose, saving_folder=folder, random_state=S, n_jobs=n_jobs)
+                               parameters_precision=[1.0 / 256], ensemble_size=E, samplers=samplers, verbose=verbose, saving_folder=folder, random_state=S, n_jobs=n_jobs)
             ret = c.calibrate(nb)
         return c, ret
 
